@@ -595,11 +595,11 @@ static bool vp_fname_filter(const char *fname, void *clos)
 	while (*b >= '0' && *b <= '9') { n = n * 10 + (*b - '0'); b++; }
 	return (n % 2) == ((intptr_t) clos - 1);
 }
-/* reader filter: table id = count_entries - 3, parity == clos - 1 */
+/* reader filter: table id = count_entries - 8 (ocaml/fs.ml: table_keys), parity == clos - 1 */
 static bool vp_reader_filter(struct mtbl_reader *r, void *clos)
 {
 	uint64_t n = mtbl_metadata_count_entries(mtbl_reader_metadata(r));
-	return ((n - 3) % 2) == (uint64_t)((intptr_t) clos - 1);
+	return ((n - 8) % 2) == (uint64_t)((intptr_t) clos - 1);
 }
 static struct mtbl_fileset_options *vp_fs_opts(value interval, value mclos, value nf, value rf)
 {
